@@ -172,7 +172,11 @@ def create_flow_instance(
                 if param.default_value_expr
                 else None
             )
-        flow_state.arguments[param.name] = val
+        # The arguments are kept to start further instances of the flow (restart of an activated flow):
+        # they must not change when the flow instance modifies a container parameter in place
+        flow_state.arguments[param.name] = (
+            copy.deepcopy(val) if isinstance(val, (list, dict, set)) else val
+        )
         flow_state.context.update(
             {
                 param.name: val,
@@ -184,6 +188,8 @@ def create_flow_instance(
         positional_param = f"${idx}"
         if positional_param in event_arguments:
             val = event_arguments[positional_param]
+            if isinstance(val, (list, dict, set)):
+                val = copy.deepcopy(val)
             flow_state.arguments[param.name] = val
             flow_state.arguments[positional_param] = val
 
